@@ -1059,6 +1059,10 @@ def _decorate_with_invariants(func: CallableT, is_init: bool) -> CallableT:
                 _IN_PROGRESS.set(in_progress)
 
             id_instance = id(instance)
+            if id_instance in in_progress:
+                # The instance is already under construction (e.g., ``super().__init__(...)``).
+                return func(*args, **kwargs)
+
             in_progress.add(id_instance)
 
             # ExitStack is not used here due to performance.
